@@ -660,6 +660,15 @@ func (fr *Frame) assertAtStore(a Val, v Val) {
 	}
 }
 
+// a whole-array (or whole-struct) field assigned in one statement: its address carries no per-field source, so the
+// clause is matched on the field-address instruction itself
+func (fr *Frame) assertAtStoreField(skey, fname, base string, v Val) {
+	a := Val{Src: &addrSrc{kind: "field", base: base, skey: skey, fname: fname}}
+	for _, o := range fr.clauseFrames() {
+		fr.assertAtStoreFor(o, a, v)
+	}
+}
+
 func (fr *Frame) assertAtStoreFor(o *Frame, a Val, v Val) {
 	for _, c := range o.spec.Asserts {
 		if !strings.HasPrefix(c.Key, "store ") {
@@ -1149,6 +1158,9 @@ func (fr *Frame) inline(callee *ssa.Function, args []Val, bindings []Val, resT t
 	if fr.hostNext {
 		fr.hostNext = false
 		sub.host = fr
+		if fr.block != nil && fr.idx >= 0 && fr.idx < len(fr.block.Instrs) {
+			sub.virtOffset = fr.virtBase[fr.block.Instrs[fr.idx]]
+		}
 	}
 	outReach, outSt, results := sub.exec(fr.cur.reach, fr.cur.st)
 	fr.cur = &Cur{outReach, outSt}
